@@ -30,7 +30,7 @@ ASSUMPTIONS = {
     "PathBuf": "opaque", "VfsId": "opaque", "ExprView": "the `position` field of an ast::Expression",
     "SymbolName": "opaque", "SyntaxId": "opaque", "Type": "opaque", "TyMap": "opaque stand-in for FxHashMap<SyntaxId, Type>", "get": "FxHashMap::get",
     "vS_new": "String::new() is the empty text", "vS_push_str": "String::push_str appends the text", "vS_as_str": "String as &str: the same text",
-    "extracted_fun_src": "the text of the new function (extracted_fun_src: `fun NAME<..>(PARAMS): RET {\\n  BODY\\n}\\n` built with format! and iterator adapters) is an uninterpreted function `fun_src` of its arguments here; its shape is checked by the bounded stand-in only",
+    "extracted_fun_src": "for the two splices the text of the new function is an uninterpreted function `fun_src` of its arguments; its last step (signature parts, then the selected text as it is, then the closing brace) is under contract as fun_src_text, how the signature parts are rendered (iterator adapters over the parameters and their types) is not",
     "vjoin_names": "`params.iter().map(|(p, _)| p.text.clone()).collect::<Vec<String>>().join(\", \")`: the parameter names joined with `, ` (uninterpreted `joined_names`)",
 }
 LEMMAS = {k: {"C20"} for k in ("lemma_off_step", "lemma_off_zero", "lemma_off_mono", "lemma_off_inj", "lemma_cix", "lemma_cix_props",
@@ -128,6 +128,20 @@ def build(tier):
     splice("extract_exprs",
            "pub fn extract_exprs_splice(src: &str, name: &str, return_ty: Option<&Type>, item_pos: &Position, body_start: usize, body_end: usize, params: Vec<(SymbolName, Option<Type>)>) -> (result: String)",
            "item_pos.start_offset", "item_pos.end_offset", "body_start", "body_end", "opt_ty(return_ty)", False)
+    # the text of the new function: the selected text is copied as it is between the signature and the closing brace
+    FS_RULE = rw.simple("R9x", r'format!\(\s*"fun \{\}\{\}\(\{\}\)\{\} \{\{\\n  \{\}\\n\}\}\\n",\s*name,\s*type_params_signature,\s*params_signature,\s*return_signature,\s*&src\[body_start\.\.body_end\],?\s*\)',
+                        '{ let mut __r = vS_new(); vS_push_str(&mut __r, "fun "); vS_push_str(&mut __r, name); vS_push_str(&mut __r, vS_as_str(&type_params_signature)); vS_push_str(&mut __r, "("); '
+                        'vS_push_str(&mut __r, vS_as_str(&params_signature)); vS_push_str(&mut __r, ")"); vS_push_str(&mut __r, vS_as_str(&return_signature)); vS_push_str(&mut __r, " {\\n  "); '
+                        'vS_push_str(&mut __r, vt_slice(src, body_start, body_end)); vS_push_str(&mut __r, "\\n}\\n"); __r }')
+    u.add_range_fn(XF, "extracted_fun_src", "format!(\"fun {}{}({}){} {{\\n  {}\\n}}\\n\"", "&src[body_start..body_end]",
+                   sig="pub fn fun_src_text(src: &str, name: &str, type_params_signature: String, params_signature: String, return_signature: String, body_start: usize, body_end: usize) -> (result: String)",
+                   rules=[FS_RULE],
+                   contract=Contract(
+                       requires=[("span_in_the_text", "body_start <= body_end <= blen_cs(src@), %s, %s" % (cb("body_start"), cb("body_end")))],
+                       ensures=[("signature_then_the_selected_text_as_it_is_then_the_closing_brace",
+                                 "result@ == \"fun \"@ + name@ + type_params_signature@ + \"(\"@ + params_signature@ + \")\"@ + return_signature@ + \" {\\n  \"@ + src@.subrange(%s, %s) + \"\\n}\\n\"@" % (ci("body_start"), ci("body_end")))],
+                       body_prelude="proof { lemma_cix_props(src@, body_start as int); lemma_cix_props(src@, body_end as int); if %s > %s { lemma_off_mono(src@, %s, %s); } }" % (ci("body_start"), ci("body_end"), ci("body_end"), ci("body_start")),
+                       ret="result", props=c20))
     u.add_canary_proof()
     u.raw(common.FOOTER)
     return u
